@@ -56,6 +56,14 @@ pub struct IsoCase {
     /// runs these mutators; isolation and the entry view are then also checked one level down
     #[serde(default)]
     pub outer: Vec<u16>,
+    /// how the subshell body ends: 0 falls off the end, 1 `exit 3`, 2 killed by SIGTERM,
+    /// 3 killed by SIGINT, 4 killed by SIGQUIT (sent to itself)
+    #[serde(default)]
+    pub ending: u8,
+    /// the shell is interactive (`-i`): a command substitution whose subshell dies of SIGINT is
+    /// then an "interrupted" expansion error, a different path through the parent-side code
+    #[serde(default)]
+    pub interactive: bool,
 }
 
 const PRELUDE: &str = "v1=orig\nv2=orig2\nexport v2\nf1() { echo f1; }\nalias a1='echo a1'\nset -- x y\ntrap 'echo usr1' USR1\ntrap '' USR2\nexec 3>/tmp/f0\numask 027\n";
@@ -67,6 +75,13 @@ fn script(c: &IsoCase) -> String {
         body.push('\n');
     }
     body.push_str("snap C1\n");
+    body.push_str(match c.ending % 5 {
+        1 => "exit 3\n",
+        2 => "selfkill TERM\n",
+        3 => "selfkill INT\n",
+        4 => "selfkill QUIT\n",
+        _ => "",
+    });
     let cmd = match c.kind {
         Kind::Paren => format!("(\n{body})"),
         Kind::SubstAssign => format!("x=$(\n{body})"),
@@ -148,12 +163,18 @@ fn diff_proc(a: &ProcInfo, b: &ProcInfo, fds_from: i32, fds_to: i32) -> Option<S
 fn check_iso(c: &IsoCase) -> Outcome {
     let text = script(c);
     let mut s = vsys::Setup::script(&text);
+    if c.interactive {
+        // an interactive shell discards the rest of a `-c` string after an interrupt, so the
+        // script is read from standard input, one line at a time
+        s.argv = vec!["yash".into(), "-i".into()];
+        s.stdin = Some(text.clone().into_bytes());
+    }
     s.chooser = c.chooser.clone();
     s.preempt = !matches!(c.chooser, Chooser::Fifo);
     s.files.push(("sub".into(), FileSpec::Dir { mode: 0o755 }));
     s.files.push(("/tmp/f0".into(), FileSpec::Regular { content: String::new(), mode: 0o644, exec: false }));
     let r = vsys::run(&s);
-    let ctx = |m: String| format!("{m}\nkind {:?} schedule {:?}\nscript:\n{text}stderr: {:?}", c.kind, c.chooser, r.stderr);
+    let ctx = |m: String| format!("{m}\nkind {:?} interactive {} schedule {:?}\nscript:\n{text}stderr: {:?}", c.kind, c.interactive, c.chooser, r.stderr);
     if let Some(p) = &r.panic {
         return Outcome::fail(ctx(format!("panic: {p}")));
     }
@@ -235,6 +256,14 @@ fn check_iso(c: &IsoCase) -> Outcome {
         expect.traps.retain(|k, _| !int_quit(k));
         c0cmp.traps.retain(|k, _| !int_quit(k));
     }
+    if c.interactive {
+        // an interactive shell ignores the job-control stop signals for its own needs; its
+        // subshells go on ignoring them ("ignored signals stay ignored"), which the trap table of
+        // the subshell shows as entries of their own
+        let stopper = |k: &String| ["Signal(Number(120))", "Signal(Number(121))", "Signal(Number(122))"].contains(&k.as_str());
+        expect.traps.retain(|k, _| !stopper(k));
+        c0cmp.traps.retain(|k, _| !stopper(k));
+    }
     if let Some(d) = diff_snap(&expect, &c0cmp, &[]) {
         return Outcome::fail(ctx(format!("child view at subshell entry differs from the state of the process that started it: {d}")));
     }
@@ -281,6 +310,8 @@ fn check_iso(c: &IsoCase) -> Outcome {
         })
         .class_if(changed, "child-state-changed")
         .class_if(!c.outer.is_empty(), "nested-in-outer-subshell")
+        .class_if(c.interactive, "interactive-shell")
+        .class(match c.ending % 5 { 1 => "subshell-exits", 2 | 3 | 4 => "subshell-killed-by-signal", _ => "subshell-falls-off-end" })
         .class_if(!matches!(c.chooser, Chooser::Fifo), "non-fifo-schedule")
 }
 
@@ -298,7 +329,7 @@ pub fn run(ctx: &Ctx, st: &mut Stats) {
         let kind = KINDS[(r % nk) as usize];
         let m = (r / nk) as u16;
         let chooser = if sc == 0 { Chooser::Fifo } else { Chooser::Seeded(seed * 7919 + i) };
-        Some(IsoCase { kind, mutators: vec![m], chooser, outer: vec![] })
+        Some(IsoCase { kind, mutators: vec![m], chooser, outer: vec![], ending: 0, interactive: false })
     };
     ISO.run_exhaustive(ctx, st, nm * nk * nsched, &decode);
     st.exhaustive_drivers.retain(|d| d != "isolation"); // schedules are sampled
@@ -307,9 +338,21 @@ pub fn run(ctx: &Ctx, st: &mut Stats) {
     let decode2 = move |i: u64| -> Option<IsoCase> {
         let kind = KINDS[(i % nk) as usize];
         let m = (i / nk) as u16;
-        Some(IsoCase { kind, mutators: vec![0], chooser: Chooser::Fifo, outer: vec![m] })
+        Some(IsoCase { kind, mutators: vec![0], chooser: Chooser::Fifo, outer: vec![m], ending: 0, interactive: false })
     };
     ISO.run_exhaustive(ctx, st, nm * nk, &decode2);
+    st.exhaustive_drivers.retain(|d| d != "isolation");
+    // every kind x every way the subshell can end x interactive or not x a few mutators
+    let decode3 = move |i: u64| -> Option<IsoCase> {
+        let kind = KINDS[(i % nk) as usize];
+        let r = i / nk;
+        let ending = (r % 5) as u8;
+        let r = r / 5;
+        let interactive = r % 2 == 1;
+        let m = [0u16, 37, 48, 42][(r / 2) as usize];
+        Some(IsoCase { kind, mutators: vec![m], chooser: Chooser::Fifo, outer: vec![], ending, interactive })
+    };
+    ISO.run_exhaustive(ctx, st, nk * 5 * 2 * 4, &decode3);
     st.exhaustive_drivers.retain(|d| d != "isolation");
     // random sequences
     let n = ctx.tier.pick(40_000, 2_000_000);
@@ -319,8 +362,17 @@ pub fn run(ctx: &Ctx, st: &mut Stats) {
             prop::collection::vec(0u16..MUTATORS.len() as u16, 1..6),
             prop_oneof![1 => Just(None), 3 => any::<u64>().prop_map(Some)],
             prop_oneof![1 => Just(vec![]), 1 => prop::collection::vec(0u16..MUTATORS.len() as u16, 1..4)],
+            prop_oneof![3 => Just(0u8), 2 => 1u8..5],
+            prop::bool::weighted(0.3),
         )
-            .prop_map(|(k, mutators, seed, outer)| IsoCase { kind: KINDS[k], mutators, chooser: seed.map_or(Chooser::Fifo, Chooser::Seeded), outer })
+            .prop_map(|(k, mutators, seed, outer, ending, interactive)| IsoCase {
+                kind: KINDS[k],
+                mutators,
+                chooser: seed.map_or(Chooser::Fifo, Chooser::Seeded),
+                outer,
+                ending,
+                interactive,
+            })
     });
 }
 
